@@ -2208,3 +2208,33 @@ def r1_13(rep):
                       "both `repr(C, packed)` and `repr(align(N))` are pushed when " +
                       " and ".join(("" if v else "not ") + k.split("::")[-1][:60] for k, v in wit.items()) +
                       " (rustc: E0587); `struct __attribute__((packed, aligned(8))) { char c; int i; }` is such a record", b.loc(a))
+
+
+# =====================================================================================================
+# R1.14
+# =====================================================================================================
+@RULES.rule("R1.14", "`repr(align)` is only put on a record that needs it (an aligned type cannot sit in a packed one)", floor=3)
+def r1_14(rep):
+    """rustc rejects a `repr(packed)` type that contains a `repr(align)` type (E0588), however small the alignment.  CompInfo::codegen
+    requests the attribute by assigning `explicit_align = Some(..)`; for structs and unions that happens only when
+    `StructLayoutTracker::requires_explicit_align` says the members do not already give the alignment.  A request without that test
+    marks types whose natural alignment is already right, and every packed struct holding one stops compiling."""
+    prog = rep.prog
+    b = rep.need(prog.impl_fn("codegen::CodeGenerator", "ir::comp::CompInfo", "codegen"), "<CompInfo as CodeGenerator>::codegen")
+    # the local that feeds the `#[repr(align(#explicit))]` quote site
+    asg = [n for n in b.nodes if n["k"] == "Assign" and strip(n["l"]).get("k") == "Local" and "Option<usize>" in (b.ty(n["l"]) or "")
+           and "Some" in b.canon(n["r"], 2)]
+    aligns = [s for s in qq.quote_sites(b) if s.has("repr", "(", "align")]
+    rep.need(aligns and len(asg) >= 3, "assignments to the explicit-alignment local of CompInfo::codegen")
+    per = {}
+    for n in asg:
+        atoms = qq.guard_atoms(b, n)
+        need = any("requires_explicit_align" in a and pol for a, pol, _ in atoms)
+        where = "opaque" if any(("is_opaque" in a or a == "local:is_opaque") and pol for a, pol, _ in atoms) else \
+            "union" if any("is_union" in a and pol for a, pol, _ in atoms) else "struct"
+        k = per.get(where, 0)
+        per[where] = k + 1
+        rep.check(need, "align-attr-only-when-needed:%s%s" % (where, "#%d" % k if k else ""),
+                  "requested after `requires_explicit_align`" if need else
+                  "`explicit_align` is set without asking whether the members already give the alignment: the type carries "
+                  "`#[repr(align(N))]` for its natural alignment, and a packed struct with such a member is rejected (E0588)", b.loc(n))
